@@ -20,6 +20,9 @@ def ast_of_tables(t, tag="", rename=None, derive=False):
     for pi, (name, lines) in enumerate(t.items()):
         out = []
         for li, ds in enumerate(lines):
+            # two lines with the same daughters are written identically (same literal, flag, model): a table may
+            # legitimately contain the same decay line twice, and each is one entry
+            li = lines.index(ds)
             model, params = MODELS_CYCLE[(pi + li) % len(MODELS_CYCLE)]
             out.append([f"0.{pi+1}{li+1}", [nm(d) for d in ds], (pi + li) % 2, model, params])
         if derive and name == "X":
